@@ -6,6 +6,7 @@ import PydapModel.Slice
 import Proofs.Slice
 import Proofs.SliceTuple
 import Proofs.Hyperslab
+import Proofs.SliceSrc
 namespace Pydap.C03
 open Pydap
 
@@ -128,6 +129,48 @@ theorem C03_hyperslab_empty_excluded :
   exact parseHyperslab_hyperslabText _ (by
     intro s hs; simp at hs; subst hs
     exact ⟨0, MAXSIZE, 1, rfl, by decide, by decide, by decide⟩)
+
+/-! ### the tie by translation: the *source text* of the four functions computes the model
+
+`Pydap.Gen.src_…` are MiniPy syntax trees regenerated from `lib.py` / `parsers/__init__.py` on every run by
+`harness/py2lean.py`; `runItem env body x` interprets a block and returns the value bound to `x`
+(`@item` stands for the value appended to `out`). -/
+
+open MiniPy in
+/-- `fix_slice`, slice branch of the per-axis loop body = `fixSl` (all `N`, all slices) -/
+theorem C03_source_fix_slice (N : Int) (s : PSlice) :
+    runItem [("s", valOfSlice s), ("N", .int N)] Gen.src_fix_slice_axis "@item"
+      = .ok (valOfSlice (fixSl N s)) := src_fix_slice_axis_slice N s
+
+open MiniPy in
+/-- `fix_slice`, integer branch of the per-axis loop body = `fixAxis` on an integer -/
+theorem C03_source_fix_slice_int (N i : Int) :
+    runItem [("s", .int i), ("N", .int N)] Gen.src_fix_slice_axis "@item"
+      = .ok (match fixAxis N (Idx.int i) with | Idx.int j => Val.int j | _ => Val.none) :=
+  src_fix_slice_axis_int N i
+
+open MiniPy in
+/-- `combine_slices`, loop body = `combine1 ∘ toSlice` for every pair of ints/slices -/
+theorem C03_source_combine_slices (e1 e2 : Idx) (h1 : e1 ≠ Idx.ell) (h2 : e2 ≠ Idx.ell) :
+    runItem [("exp1", valOfIdx e1), ("exp2", valOfIdx e2)] Gen.src_combine_slices_axis "@item"
+      = .ok (valOfSlice (combine1 (toSlice e1) (toSlice e2))) := src_combine_slices_axis_eq e1 e2 h1 h2
+
+open MiniPy in
+/-- `parse_hyperslab`, per-group body after `int()` of the tokens = `parseGroup` (non-empty token lists;
+    `str.split` never returns an empty list) -/
+theorem C03_source_parse_hyperslab (l : List Int) (hl : l ≠ []) :
+    runItem [("tokens", .ilist l)] Gen.src_parse_hyperslab_group "@item"
+      = (match parseGroup l with
+         | .ok s => .ok (valOfSlice s)
+         | .error _ => .error (.raised "ConstraintExpressionError")) := src_parse_hyperslab_group_eq l hl
+
+open MiniPy in
+/-- `hyperslab`: the three numbers printed per axis = `hyperTriple` -/
+theorem C03_source_hyperslab (s : PSlice) :
+    runItem [("s", valOfSlice s)] Gen.src_hyperslab_triple "@t0" = .ok (.int (hyperTriple s).1) ∧
+    runItem [("s", valOfSlice s)] Gen.src_hyperslab_triple "@t1" = .ok (.int (hyperTriple s).2.1) ∧
+    runItem [("s", valOfSlice s)] Gen.src_hyperslab_triple "@t2" = .ok (.int (hyperTriple s).2.2) :=
+  src_hyperslab_triple_eq s
 
 /-! ### non-vacuity: concrete inhabitants of the hypotheses -/
 
